@@ -135,7 +135,9 @@ def run(ctx):
         "evaluations": len(jsons),
         "programs": len({j["prog"] + "/" + j["kind"] for j in jsons}),
         "methods_rendered": sum(len(j["obs"]) for j in jsons),
-        "distinct_nontrivial": nt,
+        "distinct_nontrivial": vlib.distinct_count([[j["tree"], j["priv"], j["emb"], j["specs"], j["obs"]]
+                                                    for j in jsons if nontrivial(j)]),
+        "nontrivial_counted_in_coq": nt,
         "rule": "case = (generated package, target struct, option combination); non-trivial (counted in Coq by "
                 "c19_nontrivial) = inside the quantifier and: embedded methods merged (tree height > 0 with "
                 "IncludeEmbedded), or a method mixing user-chosen and unnamed/_ parameters, or at least one active import",
@@ -154,6 +156,21 @@ def run(ctx):
         s.pop("desc", None)
     ctx.log("correspondence: %d cases, %d non-trivial, %d disagreement(s), %d out-of-domain model difference(s)" % (
         len(jsons), nt, len(bad), len(info)))
+
+
+def nontrivial(j):
+    """python mirror of IFaceJudge.c19_nontrivial (the Coq count is reported next to it)"""
+    if il.height(j["tree"]) > 2 or not all(il.basic_ok(m) for m in il.all_methods(j["tree"])):
+        return False
+    if il.height(j["tree"]) > 0 and j["emb"]:
+        return True
+    if j["imports"]:
+        return True
+    for m in j["tree"]["own"]:
+        ns = il.user_names(m)
+        if any(n in ("", "_") for n in ns) and any(n not in ("", "_") for n in ns):
+            return True
+    return False
 
 
 def hist(it):
